@@ -552,6 +552,9 @@ def run_fixed(desc):
                  ('gl', '[[:alpha:]|]|b', ['[[:alpha:]|]', 'b']), ('gl', 'a\\/[|]|b', ['a\\/[|]', 'b']), ('gl', '[a\\/|b]|[c|d]', ['[a\\/', 'b]', '[c|d]']),
                  ('fn', '[]|]|b', ['[]|]', 'b']), ('gl', '[!]|]|b', ['[!]|]', 'b']), ('fn', '[a[:digit:]|x]|b', ['[a[:digit:]|x]', 'b']), ('fn', '[^|]|b', ['[^|]', 'b']),
                  ('fn', '[[:alpha:]|b', ['[[:alpha:]', 'b']), ('fn', 'a|[[:alpha:][:digit:]|]', ['a', '[[:alpha:][:digit:]|]']),
+                 # a group that never closes is no group: its bars are top-level, whatever follows
+                 ('fn', '@(a|[b]c', ['@(a', '[b]c']), ('gl', 'x|@(a|[b]c', ['x', '@(a', '[b]c']), ('fn', '*(a|[|]c|d', ['*(a', '[|]c', 'd']),
+                 ('fn', '@(a|[b]c)|d', ['@(a|[b]c)', 'd']), ('fn', '@(a|[b', ['@(a', '[b']), ('fn', '@(a|\\)[b]|c', ['@(a', '\\)[b]', 'c']),
                  # under Windows rules an escaped backslash is a separator as well (path mode only)
                  ('gl', '[a\\\\|b]c', ['[a\\\\', 'b]c'], 'FORCEWIN'), ('gl', '[a\\\\|b]c', ['[a\\\\|b]c'], 'FORCEUNIX'), ('gl', '[a/|b]c', ['[a/', 'b]c'], 'FORCEWIN'),
                  ('fn', '[a\\\\|b]c', ['[a\\\\|b]c'], 'FORCEWIN'), ('gl', 'x|[a\\/|b]', ['x', '[a\\/', 'b]'], 'FORCEWIN'), ('gl', '[a|b]c|d', ['[a|b]c', 'd'], 'FORCEWIN')]
